@@ -22,12 +22,13 @@ from harness.common import facts as F
 
 HERE = os.path.dirname(os.path.abspath(__file__))
 PINS = os.path.join(HERE, 'pins_entry.json')
-ENTRY = {'pyramid/security.py': ['_get_security_policy', 'principals_allowed_by_permission', 'view_execution_permitted',
-                                 'SecurityAPIMixin.has_permission', 'LegacySecurityPolicy._get_authn_policy',
-                                 'LegacySecurityPolicy._get_authz_policy', 'LegacySecurityPolicy.permits'],
+# (the security.py routes themselves are TRANSLATED since round 7: harness/c11/translate_entry.py)
+ENTRY = {
          # outside the anchor files: what view_execution_permitted finds as view.__permitted__ is made here (the closure
          # `permitted` hands request, context and the view's permission to policy.permits) and copied by preserve_view_attrs
-         'pyramid/viewderivers.py': ['secured_view', '_secured_view', 'preserve_view_attrs']}
+         'pyramid/viewderivers.py': ['secured_view', '_secured_view', 'preserve_view_attrs'],
+         # a name with several views: the MultiView's __permitted__ asks the first sub-view whose predicates hold
+         'pyramid/config/views.py': ['MultiView.match', 'MultiView.get_views', 'MultiView.__permitted__']}
 
 
 def blank_shape(node):
@@ -158,9 +159,42 @@ class World:
         r.context = context
         return r.has_permission(permission)
 
-    def view_execution_permitted(self, context, principals, permission):
-        self.ensure_view(permission)
-        return self.security.view_execution_permitted(context, self.request(principals), name=permission)
+    def view_execution_permitted(self, context, principals, permission, vep=None):
+        """vep None: one view protected by `permission`; 'none': a name without any view; 'plain': a view without
+        permission; 'multi': a MultiView whose sub-views have request_param predicates (a, b, c) and own permissions"""
+        request = self.request(principals)
+        if vep is None:
+            self.ensure_view(permission)
+            name = permission
+        elif vep['kind'] == 'none':
+            name = 'no-such-view'
+        elif vep['kind'] == 'plain':
+            name = self.ensure_named('plain-view', [(None, None)])
+        else:
+            subs = vep['subs']
+            name = self.ensure_named('m|' + '|'.join(str(q) for _, q in subs),
+                                     [('abc'[i], q) for i, (_, q) in enumerate(subs)])
+            qs = '&'.join('%s=1' % 'abc'[i] for i, (ok, _) in enumerate(subs) if ok)
+            request = self.Request.blank('/?' + qs)
+            request.registry = self.registry
+            request._c11_principals = principals
+        return self.security.view_execution_permitted(context, request, name=name)
+
+    def ensure_named(self, name, subs):
+        """views (request_param, permission) registered under one name, in this order"""
+        if name not in self.views:
+            with warnings.catch_warnings():
+                warnings.simplefilter('ignore')
+                for param, perm in subs:
+                    kw = {}
+                    if param is not None:
+                        kw['request_param'] = param
+                    if perm is not None:
+                        kw['permission'] = perm
+                    self.config.add_view(_view, name=name, **kw)
+                self.config.commit()
+            self.views.add(name)
+        return name
 
     def principals_allowed(self, context, permission):
         self.manager.push({'registry': self.registry, 'request': None})
